@@ -37,6 +37,7 @@ type c20In struct {
 	Panics [][3]int   `json:"panics"` // (step, op, name); op 0 Init 1 Inherit 2 Close
 	Mode   int        `json:"mode"`
 	NameStr []string  `json:"namestr,omitempty"` // object names (default n0, n1, ...)
+	Clean   []int     `json:"clean,omitempty"`   // group apply: snapshots (empty ones) that are reached by TrafficController.Clean(namespace)
 }
 
 type c20StepObs struct {
@@ -52,8 +53,9 @@ type c20Obs struct {
 }
 
 // kind id -> (kind name, category id); categories: 1 business 2 pipeline 3 traffic gate
-var c20KindName = map[int]string{0: "C20CtlA", 1: "C20CtlB", 2: "C20GateA", 3: "C20GateB", 4: "C20Pipe", 9: pipeline.Kind}
-var c20KindCat = map[int]int{0: 1, 1: 1, 2: 3, 3: 3, 4: 2, 9: 2}
+// 7 is a kind this binary does not know: such an entry cannot be turned into an entity
+var c20KindName = map[int]string{0: "C20CtlA", 1: "C20CtlB", 2: "C20GateA", 3: "C20GateB", 4: "C20Pipe", 7: "C20NoSuchKind", 9: pipeline.Kind}
+var c20KindCat = map[int]int{0: 1, 1: 1, 2: 3, 3: 3, 4: 2, 7: 4, 9: 2}
 var c20KindID = map[string]int{}
 
 func c20KindTable() [][2]int {
@@ -588,6 +590,10 @@ func c20RunApply(t *testing.T, in c20In) (obs c20Obs) {
 		for _, e := range step {
 			want[e[0]] = e
 		}
+		isClean := false
+		for _, c := range in.Clean {
+			isClean = isClean || c == ti
+		}
 		crashed := false
 		func() {
 			defer func() {
@@ -595,10 +601,23 @@ func c20RunApply(t *testing.T, in c20In) (obs c20Obs) {
 					crashed = true
 				}
 			}()
+			if isClean { // the caller drops the whole namespace: afterwards nothing of it is live
+				tc.Clean(ns)
+				live = map[int]int{}
+				return
+			}
 			for n := 0; n < in.Names; n++ {
 				name := c20Name(n)
 				k, isLive := live[n]
 				w, wanted := want[n]
+				var spec *supervisor.Spec
+				if wanted {
+					var err error
+					spec, err = super.NewSpec(c20Yaml(name, w[1], w[2]))
+					if err != nil {
+						continue // not a valid spec (name, unknown kind): the caller leaves the name as it is
+					}
+				}
 				if isLive && (!wanted || w[1] != k) {
 					if k == 9 {
 						tc.DeletePipeline(ns, name)
@@ -608,10 +627,7 @@ func c20RunApply(t *testing.T, in c20In) (obs c20Obs) {
 					delete(live, n)
 				}
 				if wanted {
-					spec, err := super.NewSpec(c20Yaml(name, w[1], w[2]))
-					if err != nil {
-						continue // not a valid spec (name): the caller has nothing to apply
-					}
+					var err error
 					if w[1] == 9 {
 						_, err = tc.ApplyPipelineForSpec(ns, spec)
 					} else {
@@ -657,13 +673,13 @@ func c20RunApply(t *testing.T, in c20In) (obs c20Obs) {
 // ---------------------------------------------------------------- generator
 
 func c20PickKind(r *vfRand) int {
-	return []int{0, 1, 0, 1, 2, 3, 2, 3, 4, 9, 9}[r.Intn(11)]
+	return []int{0, 1, 0, 1, 2, 3, 2, 3, 4, 9, 9, 0, 2, 7}[r.Intn(14)]
 }
 
 // traffic objects only: gates and real pipelines sharing the one namespace, so that the last
 // gate goes while pipelines stay, the last pipeline goes while gates stay, one of several goes...
 func c20PickTraffic(r *vfRand) int {
-	return []int{2, 3, 9, 9, 9, 4}[r.Intn(6)]
+	return []int{2, 3, 9, 9, 9, 4, 2, 9, 7}[r.Intn(9)]
 }
 
 func c20OtherKindSameCat(r *vfRand, k int) int {
@@ -703,8 +719,32 @@ func c20GenK(r *vfRand, adv bool, tier string, trafficOnly bool) c20In {
 	type cur struct{ kind, v int }
 	live := map[int]*cur{}
 	hist := []map[int]int{} // per step: name -> kind
+	// group apply: now and then the whole namespace is wiped with Clean(namespace) (an empty
+	// snapshot); afterwards the namespace is used again - often with exactly the specs it held
+	cleanAt := map[int]bool{}
+	if trafficOnly && nsteps >= 3 && r.Chance(2, 3) {
+		cleanAt[r.Range(1, nsteps-2)] = true
+		if nsteps >= 6 && r.Bool() {
+			cleanAt[r.Range(3, nsteps-1)] = true
+		}
+	}
+	var saved map[int]*cur
 	for t := 0; t < nsteps; t++ {
 		repeat := t > 0 && r.Chance(1, 12)
+		if cleanAt[t] {
+			saved = map[int]*cur{}
+			for n, c := range live {
+				saved[n] = &cur{c.kind, c.v}
+			}
+			live = map[int]*cur{}
+			in.Clean = append(in.Clean, t)
+			repeat = true
+		} else if t > 0 && cleanAt[t-1] && r.Chance(2, 3) {
+			for n, c := range saved { // the same specs again: each needs a fresh Init
+				live[n] = &cur{c.kind, c.v}
+			}
+			repeat = true
+		}
 		for n := 0; n < in.Names && !repeat; n++ {
 			c := live[n]
 			x := r.Intn(20)
